@@ -240,3 +240,107 @@ Proof.
         split; [exact H5|]. rewrite H6, H4, H2. reflexivity.
       * apply Hfin. apply append_text_ready; assumption.
 Qed.
+
+(* ---- backspace and extended characters ---- *)
+(* moving the line cursor to the end of any row with at least one text element *)
+Lemma line_set_cursor_total l ts t : l_texts l = ts ++ [t] ->
+  at_end (line_set_cursor l (line_length l)) /\ line_text (line_set_cursor l (line_length l)) = line_text l /\
+  l_indent (line_set_cursor l (line_length l)) = l_indent l /\ l_row (line_set_cursor l (line_length l)) = l_row l /\
+  line_length (line_set_cursor l (line_length l)) = line_length l.
+Proof.
+  intros Ets. unfold line_set_cursor. rewrite Z.ltb_irrefl.
+  assert (Esel : sel_text (l_texts l) 0 (line_length l) = Some (length ts, text_len t)).
+  { rewrite line_length_sum, Ets, sum_len_app. cbn [sum_len]. rewrite Z.add_0_r. apply sel_text_end. }
+  rewrite Esel, Ets, upd_nth_last. cbn [l_indent l_row]. repeat split.
+  - exists ts, (text_set_cur t (text_len t)). cbn [l_texts l_cur l_cursor]. repeat split.
+    rewrite !line_length_sum. cbn [l_texts]. rewrite Ets, !sum_len_app. reflexivity.
+  - unfold line_text. cbn [l_texts]. rewrite Ets, !flat_map_app. reflexivity.
+  - rewrite !line_length_sum. cbn [l_texts]. rewrite Ets, !sum_len_app. reflexivity.
+Qed.
+Lemma dget_ddel_nodup {A} k (d : list (Z * A)) : NoDup (map fst d) -> dget k (ddel k d) = None.
+Proof.
+  induction d as [|[k' v] d IH]; cbn; [reflexivity|]. intros H. inversion H; subst.
+  destruct (k =? k') eqn:E.
+  - apply Z.eqb_eq in E. subst k'. clear IH H. induction d as [|[k2 v2] d IH]; cbn; [reflexivity|].
+    destruct (k =? k2) eqn:E2; [apply Z.eqb_eq in E2; subst; exfalso; apply H2; now left|].
+    apply IH; [intros Hin; apply H2; now right|]. inversion H3; assumption.
+  - cbn. rewrite E. now apply IH.
+Qed.
+Lemma dset_keys_present {A} k (v x : A) d : dget k d = Some x -> map fst (dset k v d) = map fst d.
+Proof.
+  induction d as [|[k' v'] d IH]; cbn; [discriminate|]. destruct (k =? k') eqn:E; cbn; [intros _; apply Z.eqb_eq in E; now subst|].
+  intros H. now rewrite IH.
+Qed.
+(* the cursor is at the end of a row whose last text element holds at least one character *)
+Definition row_ready_ne (p : para) : Prop :=
+  exists r l ts t, p_cur p = Att r /\ dget r (p_lines p) = Some l /\ l_texts l = ts ++ [t] /\ l_cur l = length ts /\
+    t_text t <> [] /\ t_cur t = text_len t /\ l_row l = r /\ p_cursor p = (r, l_indent l + line_length l) /\
+    0 <= l_indent l /\ NoDup (map fst (p_lines p)).
+(* the caption part of SccContext.backspace *)
+Definition para_backspace (p : para) : para :=
+  let p1 := upd_cur_text p text_backspace in
+  set_cursor_at p1 (fst (p_cursor p1)) (Z.max (snd (p_cursor p1) - 1) 0).
+Lemma removelast_len {A} (l : list A) : l <> [] -> zlen (removelast l) = zlen l - 1.
+Proof.
+  intros H. destruct (exists_last H) as (l' & x & ->). rewrite removelast_last. unfold zlen. rewrite app_length. cbn. lia.
+Qed.
+Lemma para_backspace_ready p : row_ready_ne p -> row_ready (para_backspace p) /\ row_text (para_backspace p) = removelast (row_text p).
+Proof.
+  intros (r & l & ts & t & Hc & Hg & Ets & Ecur & Hne & Etc & Hr & Hcur & Hind & Hnd).
+  set (t' := text_backspace t).
+  assert (Et' : t_text t' = removelast (t_text t)) by reflexivity.
+  assert (Elen' : text_len t' = text_len t - 1) by (unfold text_len; rewrite Et'; now apply removelast_len).
+  assert (Hpos : 1 <= text_len t).
+  { unfold text_len, zlen. destruct (t_text t); [contradiction|]. cbn [length]. lia. }
+  set (l1 := line_upd_cur_text l text_backspace).
+  assert (E1 : l_texts l1 = ts ++ [t']) by (unfold l1, line_upd_cur_text; cbn; rewrite Ets, Ecur; apply upd_nth_last).
+  assert (EL1 : line_length l1 = line_length l - 1).
+  { rewrite !line_length_sum, E1, Ets, !sum_len_app. cbn [sum_len]. lia. }
+  assert (Etext1 : line_text l1 = removelast (line_text l)).
+  { unfold line_text. rewrite E1, Ets, !flat_map_app. cbn [flat_map]. rewrite !app_nil_r, Et'. symmetry. now apply removelast_app. }
+  assert (Hrow : row_text p = line_text l) by (unfold row_text, cur_line; now rewrite Hc, Hg).
+  assert (HL : 1 <= line_length l).
+  { rewrite line_length_sum, Ets, sum_len_app. cbn [sum_len]. pose proof (sum_len_nonneg ts). lia. }
+  unfold para_backspace, upd_cur_text, upd_cur_line. rewrite Hc, Hg. fold l1.
+  cbn [p_cursor set_plines fst snd]. rewrite Hcur. cbn [fst snd].
+  replace (Z.max (l_indent l + line_length l - 1) 0) with (l_indent l + line_length l - 1) by lia.
+  set (p1 := set_plines p (dset r l1 (p_lines p))).
+  unfold set_cursor_at.
+  assert (Ecl : cur_line p1 = l1).
+  { unfold cur_line. change (p_cur p1) with (p_cur p). change (p_lines p1) with (dset r l1 (p_lines p)). now rewrite Hc, dget_dset_same. }
+  rewrite Ecl. assert (Er1 : l_row l1 = r) by exact Hr. rewrite Er1.
+  change (p_lines p1) with (dset r l1 (p_lines p)). rewrite dget_dset_same.
+  assert (Hneq : (l_indent l + line_length l - 1 =? -1) = false) by (apply Z.eqb_neq; lia).
+  rewrite Hneq.
+  destruct (line_is_empty l1) eqn:Hemp.
+  - (* the row held one character: the line is removed and created again, empty *)
+    unfold line_is_empty in Hemp. apply Z.eqb_eq in Hemp.
+    assert (Hnodup : NoDup (map fst (dset r l1 (p_lines p)))) by (rewrite (dset_keys_present r l1 l _ Hg); exact Hnd).
+    cbn [p_lines set_plines set_cur set_cursor p_cursor]. change (p_lines p1) with (dset r l1 (p_lines p)).
+    rewrite (dget_ddel_nodup r _ Hnodup).
+    unfold new_caption_line. cbn [p_cursor set_cursor set_cur set_plines p_lines].
+    unfold update_line_cursor, upd_cur_line, cur_line. cbn [p_cur p_lines p_cursor set_cur set_plines snd].
+    rewrite !dget_dset_same. cbn [l_indent line_new]. rewrite Z.sub_diag. cbn [Z.ltb Z.compare]. rewrite dget_dset_same.
+    cbn [p_cur p_lines p_cursor set_cur set_plines].
+    split.
+    + exists r, (line_set_cursor (line_new r (l_indent l + line_length l - 1)) 0). split; [reflexivity|]. split; [apply dget_dset_same|].
+      split; [exists [], text_new; repeat split|]. split; [reflexivity|]. cbn. f_equal. lia.
+    + unfold row_text, cur_line. cbn [p_cur p_lines set_plines]. rewrite dget_dset_same. cbn.
+      rewrite Hrow. rewrite <- Etext1. unfold line_text.
+      assert (Hz : zlen (flat_map t_text (l_texts l1)) = 0) by (rewrite <- sum_len_flat, <- line_length_sum; exact Hemp).
+      destruct (flat_map t_text (l_texts l1)); [reflexivity|discriminate].
+  - (* otherwise the line cursor moves to the new end of the row *)
+    cbn [p_lines set_cur set_cursor p_cursor]. change (p_lines p1) with (dset r l1 (p_lines p)). rewrite dget_dset_same.
+    unfold update_line_cursor, upd_cur_line, cur_line. cbn [p_cur p_lines p_cursor set_cur set_cursor snd].
+    change (p_lines p1) with (dset r l1 (p_lines p)). rewrite !dget_dset_same.
+    assert (Ei1 : l_indent l1 = l_indent l) by reflexivity. rewrite Ei1.
+    replace (l_indent l + line_length l - 1 - l_indent l) with (line_length l1) by lia.
+    assert (Hnn : (line_length l1 <? 0) = false) by (apply Z.ltb_ge; rewrite line_length_sum; apply sum_len_nonneg).
+    rewrite Hnn. cbn [p_cur p_lines set_cur set_cursor set_plines]. change (p_lines p1) with (dset r l1 (p_lines p)). rewrite dget_dset_same.
+    destruct (line_set_cursor_total l1 ts t' E1) as (He2 & Ht2 & Hi2 & Hr2 & Hl2).
+    split.
+    + exists r, (line_set_cursor l1 (line_length l1)). cbn [p_cur p_lines p_cursor set_plines set_cur set_cursor].
+      split; [reflexivity|]. split; [apply dget_dset_same|]. split; [exact He2|]. split; [rewrite Hr2; exact Er1|].
+      rewrite Hi2, Hl2, Ei1, EL1. f_equal. lia.
+    + unfold row_text, cur_line. cbn [p_cur p_lines set_plines set_cur set_cursor]. rewrite dget_dset_same, Ht2, Etext1, Hrow. reflexivity.
+Qed.
